@@ -200,6 +200,8 @@ def finish(run):
     run.budget_hit = REC.budget_hit
     run.deadlock_hit = REC.deadlock_hit
     run.unraisable = list(REC.unraisable)
+    if REC.extra.get('harness_fault'):
+        raise HarnessError('harness bookkeeping failed: %s' % REC.extra['harness_fault'])
     run.extra['mp'] = REC.extra.get('mp')
     run.digest = REC.digest()
     return run
